@@ -114,7 +114,7 @@ def spelled(rng, v, allow_neg=True):
 class C19(Engine):
     prop = "C19"
     title = "naken_util memory commands address the same bytes as loader and simulator"
-    quick_budget = 45
+    quick_budget = 90
     quick_runs = 25000
     thorough_budget = 600
     variants = ("small",)
